@@ -72,6 +72,9 @@ inductive VState | running | suspended | idling
 
 structure Thr where
   label : Nat
+  /-- the `ScriptClass` (group) the thread belongs to: `thread l` stays in the caller's group,
+      a host call and `waitthread l` create a new one -/
+  grp : Nat := 0
   pc : Nat := 0
   cnt : Nat := 0
   ts : TState := .running
@@ -211,8 +214,8 @@ def enterSei (E : Env) (s : St) (t : Tid) : St :=
   enterVM E { s with stack := .sei t saved :: s.stack } t
 
 /-- `new ScriptThread` at `label` -/
-def newThread (s : St) (label : Nat) (joinedBy : Option Tid) : Tid × St :=
-  (s.nextTid, { s with threads := s.threads ++ [(s.nextTid, { label := label, joinedBy := joinedBy })],
+def newThread (s : St) (label : Nat) (grp : Option Nat) (joinedBy : Option Tid) : Tid × St :=
+  (s.nextTid, { s with threads := s.threads ++ [(s.nextTid, { label := label, grp := grp.getD s.nextTid, joinedBy := joinedBy })],
                        nextTid := s.nextTid + 1 })
 
 /-- `delete thread` from inside its own `end`: `~ScriptThread`, `NotifyDelete`, `~Listener`
@@ -330,7 +333,8 @@ def execOp (E : Env) (s : St) (t : Tid) (th : Thr) (dl ct n : Nat) (rest : List 
     | some c =>
       if label < E.prog.length then
         let s := adv s
-        let (child, s) := newThread s label (if w then some c else none)
+        -- `thread`: ScriptClass::CreateThreadInternal (same group); `waitthread`: Listener::CreateThreadInternal (new ScriptClass)
+        let (child, s) := newThread s label (if w then none else some th.grp) (if w then some c else none)
         let s := if w then startedWaitFor s c else s
         enterSei E { s with stack := me :: rest } child
       else
@@ -403,7 +407,7 @@ def halted (s : St) : Bool := s.stack.isEmpty
 /-- `ScriptMaster::ExecuteThread(script, Event, label)`: `CreateScriptThread`, then `thread->Execute(parms)` -/
 def startCall (E : Env) (s : St) (label : Nat) : St :=
   let s := { s with exc := none }
-  let (t, s) := newThread s label none
+  let (t, s) := newThread s label none none
   enterSei E { s with stack := [.thrExec] } t
 
 /-- `ScriptContext::Execute()`: `Frame()`, `SetTime(GetTime())`, `ProcessPendingEvents()`, `ExecuteRunning()` -/
